@@ -8,8 +8,9 @@ CONSTANTS
   MaxErrs = 2
   MaxInflight = 2
   Reorder = FALSE
+  SlowSub = FALSE
 INIT Init
 NEXT Next
 VIEW view
-INVARIANTS EveryHeadChangeAnnounced NoSpuriousBlockEvent CurrentBlockIsLastObserved ExactlyOnceAtFirstDelivered StrictlyIncreasing NoDuplicates AtFirstPublished
+INVARIANTS NothingLostOrInvented EveryHeadChangeAnnounced NoSpuriousBlockEvent CurrentBlockIsLastObserved ExactlyOnceAtFirstDelivered StrictlyIncreasing NoDuplicates AtFirstPublished
 CHECK_DEADLOCK FALSE
